@@ -214,6 +214,28 @@ def h_gate_reuse(env, N, name, qubits, order):
             cur_g, cur_p = oarr(list(np.asarray(obj.gs[0], dtype=object))), obj.ps[0]
 
 
+def h_gate_reads_off_map(env, N, name, qubits):
+    """reading a gate's map off an identity map (gate.forward(identity_map(N))), then updating that map further with
+    other gates, leaves the gate itself the textbook gate (its tables are its own)"""
+    M = Mods(env)
+    gate = getattr(M.ci, name)(*qubits)
+    n = len(qubits)
+    table = oracle_table(name if name != 'CNOT' else ('CNOT_lt' if qubits[0] < qubits[1] else 'CNOT_gt'), n)
+    mask = [i in qubits for i in range(N)]
+    tg, tp = embedded_table(oarr(table[0]), oarr(table[1]), mask, N)
+    t0g, t0p = snapshot(gate.forward_map.gs), snapshot(gate.forward_map.ps)
+    m = M.st.identity_map(N)
+    r = env.run(lambda: gate.forward(m))
+    env.goal('map_read_off', b_and(b_not(r.raised), b_and(arr_eq(m.gs, tg), arr_eq(m.ps, tp))))
+    env.goal('map_shares_no_memory_with_gate', not (np.shares_memory(np.asarray(m.gs), np.asarray(gate.forward_map.gs)) or np.shares_memory(np.asarray(m.ps), np.asarray(gate.forward_map.ps))))
+    # further in-place updates of the accumulated map (masked paths: a one-qubit gate, a backward pass)
+    other = M.ci.S(0)
+    r2 = env.run(lambda: (other.backward(m), M.ci.H(N - 1).forward(m), m.rotate_by(M.pa.Pauli(env.const([1, 1] * N), 0))))
+    env.goal('further_updates_no_exception', b_not(r2.raised))
+    env.goal('gate_table_unchanged', b_and(unchanged(t0g, gate.forward_map.gs), unchanged(t0p, gate.forward_map.ps)))
+    _check_gate_on_register(env, M, gate, table, N, list(qubits), 'afterwards:')
+
+
 def h_gate_on_views(env, N, name, qubits, form):
     """the operand list in different storage layouts (a reversed / strided selection of a longer list, a column window
     of a wider array, a transposed buffer, a negated list sharing its strings): every gate acts on the operators the
@@ -288,5 +310,7 @@ def jobs(tier):
         for name, qubits in (('H', [0]), ('S', [N - 1]), ('Y', [1]), ('CNOT', [0, 1]), ('CNOT', [N - 1, 0])):
             for form in ('plain', 'reversed', 'strided', 'columns', 'transposed', 'negated'):
                 J.append(dict(harness=('c11', 'h_gate_on_views'), params=dict(N=N, name=name, qubits=qubits, form=form)))
+    for N, name, qubits in ((1, 'H', [0]), (1, 'S', [0]), (1, 'Y', [0]), (2, 'CNOT', [0, 1]), (2, 'CNOT', [1, 0]), (2, 'H', [1]), (3, 'CNOT', [2, 0])):
+        J.append(dict(harness=('c11', 'h_gate_reads_off_map'), params=dict(N=N, name=name, qubits=qubits)))
     J.append(dict(harness=('c11', 'h_indexed'), params=dict(N=1), cost=50))
     return J
